@@ -150,6 +150,9 @@ structure Drv where
   zq : List (Option Bytes) := []
   cv : Canvas := {}
   mode : String := "RGBX"
+  px : Option (St PSt) := none
+  rcd : RecSt := { last := 0 }
+  now : Nat := 0
 
 /-- tabulate an image (driver-side optimisation: same pixels inside the bounds, constant-time lookups) -/
 def freezeImg (i : Img) : Img :=
@@ -285,6 +288,45 @@ def handle (line : String) : String :=
   | "compile" :: args => doCompile args
   | _ => "bad-op"
 
+/-! ## proxy engine -/
+
+def pevTok : PEvent → String
+  | .startLogging => "startlogging"
+  | .setPixelFormat pf => "spf:" ++ showHex pf
+  | .setEncodings n => s!"se:{n}"
+  | .updateRequest => "ur"
+  | .key k d => s!"key:{k}:{if d then 1 else 0}"
+  | .pointer x y m => s!"ptr:{x}:{y}:{m}"
+  | .cutText t => "cut:" ++ showHex t
+  | .closeViewer => "closeviewer"
+  | .raise c => "raise:" ++ c
+
+def doPxRecv (d : Drv) (h : String) : Drv × String :=
+  match d.px, bytesOfHex h with
+  | some st, some chunk =>
+    if !d.rcd.recording then (d, "stopped") else
+    let r := feed proxyMachine st chunk
+    -- fold the recorder over the events of this chunk (all at the chunk's arrival time)
+    let (rec', toks) := r.2.1.foldl (fun (acc : RecSt × List String) ev =>
+      let (r1, txt) := recStep acc.1 d.now ev
+      (r1, acc.2 ++ [pevTok ev] ++ (match txt with | some t => ["rec:" ++ hexOfStr (String.ofList t)] | none => []))) (d.rcd, [])
+    ({ d with px := some r.1, rcd := rec' },
+      s!"buf={r.1.buf.length} " ++ (if toks.isEmpty then "-" else " ".intercalate toks) ++ (if r.2.2 then "" else " diverged"))
+  | _, _ => (d, "bad-op")
+
+def doShlex (h : String) : String :=
+  match strOfHex h with
+  | some s =>
+    match shlexSplit s.toList with
+    | .ok ws => "ok " ++ (if ws.isEmpty then "-" else ",".intercalate (ws.map hexW))
+    | .error _ => "err value"
+  | none => "bad-op"
+
+def doQuote (h : String) : String :=
+  match strOfHex h with
+  | some s => "ok " ++ hexW (shlexQuote s.toList)
+  | none => "bad-op"
+
 def handleSt (d : Drv) (line : String) : Drv × String :=
   match (line.splitOn " ").filter (· ≠ "") with
   | "rfb-z" :: [h] =>
@@ -293,6 +335,17 @@ def handleSt (d : Drv) (line : String) : Drv × String :=
       | some b => ({ d with zq := d.zq ++ [some b] }, "ok")
       | none => (d, "bad-op")
   | "rfb-new" :: args => doRfbNew d args
+  | ["px-new", pw, t0] =>
+    match parseBool? pw, t0.toNat? with
+    | some pw, some t0 => ({ d with px := some ⟨PSt.init pw, []⟩, rcd := { last := t0 }, now := t0 }, "ok")
+    | _, _ => (d, "bad-op")
+  | ["px-time", t] =>
+    match t.toNat? with
+    | some t => ({ d with now := t }, "ok")
+    | none => (d, "bad-op")
+  | ["px-recv", h] => doPxRecv d h
+  | ["shlex", h] => (d, doShlex h)
+  | ["quote", h] => (d, doQuote h)
   | "rfb-recv" :: args => doRfbRecv d args
   | "rfb-vmrecv" :: args => doRfbVmRecv d args
   | ["rfb-screen"] => (d, screenTok d.cv)
